@@ -34,9 +34,16 @@ def load_dfu():
 def firmware(seed, n, tail):
     r = random.Random(seed)
     data = bytearray(r.randbytes(n)) if n else bytearray()
-    if n and tail:
+    if n and tail in (1, 2):
         k = min(n, r.randrange(1, 40))
         data[-k:] = bytes([{1: 0x00, 2: 0xff}[tail]]) * k
+    elif tail == 3 and n >= 16:
+        # the file ends in a DFU suffix (dfu-suffix / dfu-util -a write one: bcdDevice, idProduct, idVendor, bcdDFU, "UFD", 16, CRC);
+        # the flasher takes a raw binary, so these 16 bytes are part of the image like any others
+        import struct
+        import zlib
+        data[-16:-4] = struct.pack('<HHHH3sB', 0xffff, 0x0189, 0x28e9, 0x0100, b'UFD', 16)
+        data[-4:] = struct.pack('<I', zlib.crc32(bytes(data[:-4])) ^ 0xffffffff)
     return bytes(data)
 
 
